@@ -14,7 +14,7 @@ from .c18 import key_tokens, split_packets, rfc_fp, src_hash, packets_of_key, ma
 
 PUBLIC_TAGS = {6, 14, 13, 17, 2}
 PINS = {
-    'PrivKeyV4.pubkey': '33b42adeb5816d0e',
+    'PrivKeyV4.pubkey': '4612486ea4ab27ef',      # repair 3c1c8c6: refuses OpaquePrivKey material (Model/PubExport.v pubkey_of = None)
     'PGPKey.pubkey': '8ca1b2d84e32a4d4',
     'PGPKey.__bytearray__': 'cf5c4a72b4df4a15',
     'KeyAction.check_attributes': '5bc1ee5f304ffbd0',
@@ -509,6 +509,87 @@ def suite_no_uid(ctx, d, pgpy):
                 ctx.fail('actions', 'a refused operation changed the public object', {'op': 'action', 'object': label, 'action': 'add_uid'})
 
 
+def new_packet(tag, body):
+    n = len(body)
+    return bytes([0xc0 | tag]) + (bytes([n]) if n < 192 else bytes([192 + ((n - 192) >> 8), (n - 192) & 0xff]) if n < 8384 else b'\xff' + n.to_bytes(4, 'big')) + body
+
+
+def suite_opaque(ctx, d, pgpy, names):
+    """private keys holding a key packet of an algorithm id PGPy has no material class for (21, 0: the material is kept as undivided
+    octets, where its public part ends is unknown).  The right outcome for "the public export carries no secret" is NO public twin:
+    PGPKey.pubkey must raise NotImplementedError (model: pubkey_of = None, theorem C07_pubkey_refuses_iff) - for an opaque primary
+    and for a key of a supported algorithm with an opaque private SUBKEY - leave the key unchanged and leave no half-built twin
+    behind; every private operation on the opaque key object raises."""
+    from .keys import get, T0
+    from pgpy.constants import KeyFlags as F, PubKeyAlgorithm as A, EllipticCurveOID as C
+    with warnings.catch_warnings():
+        warnings.simplefilter('ignore')
+        helper = pgpy.PGPKey.new(A.EdDSA, C.Ed25519, created=T0)
+        helper.add_uid(pgpy.PGPUID.new('Helper'), usage={F.Sign, F.Certify}, created=T0)
+        msg = pgpy.PGPMessage.new('plain')
+        shapes = []
+        for alg in (21, 0):
+            for data in (b'\x00\x09\x01\xff', bytes(range(1, 41)), b''):
+                body = b'\x04' + (1000).to_bytes(4, 'big') + bytes([alg]) + data
+                shapes.append(('opaque%d/%d-octets/primary' % (alg, len(data)), new_packet(5, body), True))
+                for n in names:
+                    shapes.append(('%s+opaque%d/%d-octets/subkey' % (n, alg, len(data)), None, (n, new_packet(7, body))))
+        for label, blob, extra in shapes:
+            if blob is None:
+                blob = bytes(get(extra[0])) + extra[1]
+            case = {'op': 'opaque-twin', 'object': label, 'blob': blob.hex()}
+            o = out2(lambda: pgpy.PGPKey.from_blob(blob)[0])
+            if o[0] != 'ok':
+                ctx.case('opaque', (label, 'load'), nontrivial=False)
+                ctx.notes.append('private key with opaque material no longer loaded (%s): %r' % (label, o[1])); continue
+            key = o[1]
+            if key.is_public or not any(type(p.keymaterial).__name__ == 'OpaquePrivKey' for p in packets_of_key(key)):
+                ctx.fail('opaque', 'harness: loaded object is not a private key with an opaque private key packet', case); continue
+            t = out2(lambda: tkey_tokens(key))
+            if t[0] != 'ok':
+                ctx.fail('opaque', 'harness: fields of a private key with opaque material cannot be read', dict(case, impl=repr(t))); continue
+            toks = t[1]
+            mpub = d.call('export ' + toks).split(' ')[0]
+            mtw = d.call('twin ' + toks)
+            fp0, before = fps_of(key), out2(lambda: bytes(key).hex())
+            got = outcome(lambda: key.pubkey)
+            ctx.case('opaque', (label, 'twin'), sample={'object': label, 'model': mpub, 'impl': repr(got)[:60]})
+            ctx.expect_eq('opaque', 'PGPKey.pubkey of a private key with opaque key material differs from the model (refusal: NotImplementedError)',
+                          dict(case, tokens=toks[-300:]), got if got[0] != 'ok' else ('ok', bytes(got[1]).hex()),
+                          ('raise', 'NotImplementedError') if mpub == 'REFUSED' else ('ok', mpub))
+            if mpub != 'REFUSED' or mtw != 'REFUSED':
+                ctx.fail('opaque', 'model: a private key with an opaque key packet gets a public twin', dict(case, model=mpub[:80]))
+            if got[0] == 'ok':
+                # a twin WAS produced: it must not hold anything the private key does not show as public, and must keep the fingerprints
+                tw = got[1]
+                if fps_of(tw) != fp0 or set(t for t, b in split_packets(bytes(tw))) - PUBLIC_TAGS:
+                    ctx.fail('opaque', 'a public twin produced for a private key with opaque material has other fingerprints / non-public packets',
+                             dict(case, twin=bytes(tw).hex()))
+            # asking again gives the same answer; nothing was left behind, the key is unchanged
+            again = outcome(lambda: key.pubkey)
+            sib = key._sibling() if key._sibling is not None else None
+            ctx.expect_eq('opaque', 'a refused PGPKey.pubkey changed the key / left a half-built twin / answers differently the second time', dict(case, step='after'),
+                          (again[0], again[1] if again[0] != 'ok' else None, sib is None, fps_of(key), out2(lambda: bytes(key).hex())),
+                          (got[0], got[1] if got[0] != 'ok' else None, got[0] != 'ok', fp0, before))
+            for i, sk in enumerate(key.subkeys.values()):
+                opq = type(sk._key.keymaterial).__name__ == 'OpaquePrivKey'
+                so = outcome(lambda: sk.pubkey)
+                ctx.case('opaque', (label, 'subkey-twin', i))
+                if opq and so != ('raise', 'NotImplementedError'):
+                    ctx.fail('opaque', 'pubkey of an opaque private subkey is not refused with NotImplementedError', dict(case, idx=i, impl=repr(so)[:80]))
+                if not opq and (so[0] != 'ok' or not so[1].is_public or str(so[1].fingerprint) != str(sk.fingerprint)):
+                    ctx.fail('opaque', 'subkey of a supported algorithm beside an opaque one: its own twin is not produced / not public / has another fingerprint',
+                             dict(case, idx=i, impl=repr(so)[:80]))
+            if extra is True:
+                # the opaque private primary itself: no usable secret material, every private operation raises
+                st = dict(nuids=0, primary=True, public=False, protected=False, cleartext=True, flag_ok={})
+                run_actions(ctx, d, pgpy, 'actions', key, label, st, helper, msg, True)
+
+
+def fps_of(key):
+    return [str(key.fingerprint).lower()] + [str(s.fingerprint).lower() for s in key.subkeys.values()]
+
+
 def suite_pins(ctx, pgpy):
     from pgpy.packet.packets import PrivKeyV4
     from pgpy.decorators import KeyAction
@@ -576,8 +657,9 @@ def run(ctx):
                 suite_actions(ctx, d, pgpy, n)
         suite_usage_table(ctx, d, pgpy)
         suite_no_uid(ctx, d, pgpy)
+        suite_opaque(ctx, d, pgpy, [n for n in (('ed25519', 'rsa1024') if q else ('ed25519', 'rsa1024', 'p256', 'dsa1024', 'p521')) if n in names])
         ctx.exhaustive.append('KeyAction decision table: 6 private operations x {derived, loaded (binary), loaded (armored), public subkey, '
-                              'private, private locked, private unlocked, twin taken while unlocked, encryption-only key, public / private primary WITHOUT user id (+ add_uid)} compared with the model table')
+                              'private, private locked, private unlocked, twin taken while unlocked, encryption-only key, public / private primary WITHOUT user id (+ add_uid), private primary with opaque material} compared with the model table')
         ctx.notes.append('literal secret search (TESTED, not proved): big- and little-endian octets of every secret integer >= 16 octets and the '
                          'encrypted secret blob, over binary export, de-armored export and armor text; the proved statement is non-interference')
         ctx.notes.append('sha1 oracle calls answered by hashlib: %d' % d.oracle_calls)
@@ -635,6 +717,11 @@ def replay(ctx, case):
                     if bytes(key.pubkey) != base:
                         bad.append('forms')
                 return bool(bad)
+            if case.get('op') == 'opaque-twin' and case.get('blob'):
+                # a private key with opaque key material has no public twin: anything but the refusal is the failure
+                key = pgpy.PGPKey.from_blob(bytes.fromhex(case['blob']))[0]
+                before = bytes(key)
+                return outcome(lambda: key.pubkey) != ('raise', 'NotImplementedError') or bytes(key) != before or key._sibling is not None
             if case.get('op') == 'action' and case.get('object', '').startswith('no-uid/') and case['state'].get('public'):
                 from pgpy.constants import PubKeyAlgorithm as A, EllipticCurveOID as C
                 k = pgpy.PGPKey.new(A.EdDSA, C.Ed25519, created=T0)
